@@ -687,4 +687,151 @@ theorem sepCount_eq_trailingZeros : ∀ (dims : List Nat) (n : Nat), 0 < n → n
       rw [if_neg hall, hsc]
       exact sepCount_eq_trailingZeros ds _ (by omega) hr
 
+/-! ### `Clone` / histories: one step of the model is the specified step -/
+
+theorem getIndexRev_not_inRange : ∀ (ds is : List Nat) (r sz : Nat), ¬ InRange ds is →
+    ∃ e, getIndexRev ds is r sz = .error e
+  | [], [], _, _, h => absurd trivial h
+  | d :: ds, i :: is, r, sz, h => by
+    rw [getIndexRev]
+    by_cases hi : i < d
+    · rw [if_pos hi]
+      exact getIndexRev_not_inRange ds is _ _ (fun h' => h ⟨hi, h'⟩)
+    · rw [if_neg hi]; exact ⟨_, rfl⟩
+  | [], _ :: _, _, _, _ => ⟨_, rfl⟩
+  | _ :: _, [], _, _, _ => ⟨_, rfl⟩
+
+/-- Whatever the lengths: an index that is not in range is rejected (a panic), never an offset. -/
+theorem getIndex_not_inRange (dims idx : List Nat) (h : ¬ InRange dims idx) :
+    ∃ e, getIndex dims idx = .error e := by
+  unfold getIndex
+  apply getIndexRev_not_inRange
+  intro h'
+  have := inRange_reverse _ _ h'
+  rw [List.reverse_reverse, List.reverse_reverse] at this
+  exact h this
+
+theorem eq_decide {α} [BEq α] [LawfulBEq α] [DecidableEq α] (t u : Tensor α) :
+    eq t u = decide (t.dims = u.dims ∧ t.data = u.data) := by
+  rw [Bool.eq_iff_iff]
+  simp [eq]
+
+theorem seqData_length (n : Nat) (start : Int) : (seqData n start).length = n := by
+  simp [seqData]
+
+/-- every slot holds a well-formed tensor -/
+def HWF (st : HState) : Prop := ∀ s t, st s = some t → WF t
+
+theorem HWF_empty : HWF HState.empty := fun _ _ h => by simp [HState.empty] at h
+
+theorem HWF_set (st : HState) (s : Nat) (t : Tensor Int) (h : HWF st) (ht : WF t) : HWF (st.set s t) := by
+  intro k u hk
+  unfold HState.set at hk
+  by_cases e : k = s
+  · rw [if_pos e] at hk; cases hk; exact ht
+  · rw [if_neg e] at hk; exact h k u hk
+
+/-- One step: same next state, the view of the model's observation is the specified observation, and
+    well-formedness of every slot is kept. -/
+theorem stepModel_spec (st : HState) (h : HWF st) (op : HOp) :
+    (stepModel st op).1 = (stepSpec st op).1 ∧ (stepModel st op).2.view = (stepSpec st op).2 ∧
+      HWF (stepModel st op).1 := by
+  cases op with
+  | mk s dims start =>
+    rw [stepModel, stepSpec, fromVec]
+    by_cases h0 : 0 ∈ dims
+    · simp [h0, Obs.view, h]
+    · have hpos := (no_zero_iff dims).1 h0
+      have hc : ¬ (dims.contains 0 = true) := fun hc => h0 ((contains_zero_iff dims).1 hc)
+      rw [if_neg hc, if_neg (fun hne => hne (seqData_length _ _).symm), if_neg h0]
+      exact ⟨rfl, rfl, HWF_set _ _ _ h ⟨hpos, seqData_length _ _⟩⟩
+  | cl s r =>
+    rw [stepModel, stepSpec]
+    cases hr : st r with
+    | none => exact ⟨rfl, rfl, h⟩
+    | some t => exact ⟨rfl, rfl, HWF_set _ _ _ h (h r t hr)⟩
+  | cf s r =>
+    rw [stepModel, stepSpec]
+    cases hs : st s with
+    | none => exact ⟨rfl, rfl, h⟩
+    | some a =>
+      cases hr : st r with
+      | none => exact ⟨rfl, rfl, h⟩
+      | some b => exact ⟨rfl, rfl, HWF_set _ _ _ h (h r b hr)⟩
+  | eq s r =>
+    rw [stepModel, stepSpec]
+    cases hs : st s with
+    | none => exact ⟨rfl, rfl, h⟩
+    | some a =>
+      cases hr : st r with
+      | none => exact ⟨rfl, rfl, h⟩
+      | some b => exact ⟨rfl, by simp [Obs.view, eq_decide], h⟩
+  | dims s =>
+    rw [stepModel, stepSpec]
+    cases hs : st s with
+    | none => exact ⟨rfl, rfl, h⟩
+    | some t => exact ⟨rfl, rfl, h⟩
+  | dim s i =>
+    rw [stepModel, stepSpec]
+    cases hs : st s with
+    | none => exact ⟨rfl, rfl, h⟩
+    | some t =>
+      refine ⟨rfl, ?_, h⟩
+      by_cases hi : i < t.dims.length
+      · simp [hi, dim, obsE, Obs.view]
+      · simp [hi, dim, obsE, Obs.view]
+  | get s idx =>
+    rw [stepModel, stepSpec]
+    cases hs : st s with
+    | none => exact ⟨rfl, rfl, h⟩
+    | some t =>
+      refine ⟨rfl, ?_, h⟩
+      by_cases hr : InRange t.dims idx
+      · simp [hr, getIndex_eq_flat _ _ hr, obsE, Obs.view]
+      · obtain ⟨e, he⟩ := getIndex_not_inRange _ _ hr
+        simp [hr, he, obsE, Obs.view]
+  | rd s idx =>
+    rw [stepModel, stepSpec]
+    cases hs : st s with
+    | none => exact ⟨rfl, rfl, h⟩
+    | some t =>
+      refine ⟨rfl, ?_, h⟩
+      by_cases hr : InRange t.dims idx
+      · obtain ⟨a, ha, hi⟩ := index_ok t idx (h s t hs) hr
+        simp [hr, ha, hi, obsE, Obs.view]
+      · obtain ⟨e, he⟩ := getIndex_not_inRange _ _ hr
+        simp [hr, index, he, obsE, Obs.view]
+  | wr s idx v =>
+    rw [stepModel, stepSpec]
+    cases hs : st s with
+    | none => exact ⟨rfl, rfl, h⟩
+    | some t =>
+      have hwf := h s t hs
+      by_cases hr : InRange t.dims idx
+      · dsimp only
+        rw [if_pos hr, setAt_ok t idx v hwf hr]
+        exact ⟨rfl, rfl, HWF_set _ _ _ h ⟨hwf.1, by simp [hwf.2]⟩⟩
+      · obtain ⟨e, he⟩ := getIndex_not_inRange _ _ hr
+        simp [hr, setAt, he, Obs.view, h]
+  | it s =>
+    rw [stepModel, stepSpec]
+    cases hs : st s with
+    | none => exact ⟨rfl, rfl, h⟩
+    | some t => exact ⟨rfl, rfl, h⟩
+  | w s =>
+    rw [stepModel, stepSpec]
+    cases hs : st s with
+    | none => exact ⟨rfl, rfl, h⟩
+    | some t =>
+      refine ⟨rfl, ?_, h⟩
+      simp [writePieces_spec t (h s t hs), obsE, Obs.view]
+
+theorem runWith_spec : ∀ (ops : List HOp) (st : HState), HWF st →
+    (runWith stepModel st ops).map Obs.view = runWith stepSpec st ops
+  | [], _, _ => rfl
+  | op :: ops, st, h => by
+    obtain ⟨h1, h2, h3⟩ := stepModel_spec st h op
+    simp only [runWith, List.map_cons]
+    rw [h2, ← h1, runWith_spec ops _ h3]
+
 end Rlib.Tensor
